@@ -52,10 +52,10 @@ def fit(labels):
     return labels
 
 
-def make_pool(rng):
-    bases = [list(rng.choice(TLDS)) for _ in range(rng.randint(1, 3))]
+def make_pool(rng, similar=False):
+    bases = [list(rng.choice(TLDS)) for _ in range(1 if similar else rng.randint(1, 3))]
     pool = []
-    for _ in range(rng.randint(3, 10)):
+    for _ in range(rng.randint(6, 14) if similar else rng.randint(3, 10)):
         base = list(rng.choice(bases))
         r = rng.random()
         if r < 0.06:
@@ -148,10 +148,11 @@ def rand_ttl(rng):
 class Seq:
     """Tracks what the generator believes about the writer, to aim hints and limits."""
 
-    def __init__(self, rng, big=False):
+    def __init__(self, rng, big=False, similar=False):
         self.rng = rng
         self.big = big
-        self.pool = make_pool(rng)
+        self.similar = similar
+        self.pool = make_pool(rng, similar)
         self.ops = []
         self.est = 12              # upper estimate of the cursor (uncompressed sizes)
         self.qname = None
@@ -223,7 +224,10 @@ class Seq:
             self.bufsize = rng.choice([16500, 17000, 20000])
             limit = rng.choice([self.bufsize, self.bufsize + 5, 16400])
         else:
-            self.bufsize = rng.choice([rng.randint(0, 30), rng.randint(12, 120), rng.randint(100, 300), 512, rng.randint(300, 700)])
+            self.bufsize = rng.choice([rng.randint(0, 30), rng.randint(12, 120), rng.randint(100, 300), 512, 512,
+                                       rng.randint(300, 700), rng.randint(500, 1500), 4096])
+            if self.similar:
+                self.bufsize = max(self.bufsize, rng.choice([300, 512, 1232, 4096]))
             limit = rng.choice([self.bufsize, self.bufsize, rng.randint(0, self.bufsize + 20), rng.randint(12, max(12, self.bufsize)), 65535])
         fill = rng.choice([0, 0xAA, 0xFF, 0xC0, rng.randrange(256)])
         nops = rng.choice([1, 3, 8, 15, 25, 40, 60]) if not self.big else rng.randint(8, 20)
@@ -253,8 +257,8 @@ class Seq:
             elif r < 0.25:
                 self.ops.append(f"utime:{rng.randrange(2**48)}")
             elif r < 0.30:
-                self.ops.append(f"mode:{rng.choice('scd')}")
-            elif r < 0.38:
+                self.ops.append(f"mode:{rng.choice('sscd' if self.similar else 'scd')}")
+            elif r < (0.32 if self.similar else 0.38):
                 near = self.est + rng.randint(-40, 25)
                 self.ops.append(f"lim:{max(0, rng.choice([near, near, near, rng.randint(0, self.bufsize + 30), self.bufsize, 0, 10**6]))}")
             elif r < 0.42:
@@ -287,7 +291,7 @@ class Seq:
         return f"{self.bufsize} {fill:02x} {limit} " + " ".join(self.ops)
 
 
-def gen(rng, tier):
+def gen(rng, tier, similar=False):
     quick = tier == "quick"
     # hand-written boundary cases
     yield "12 aa 12"
@@ -299,6 +303,6 @@ def gen(rng, tier):
     yield "22 00 40 edns:0 xrc:1"
     n = 3000 if quick else 150000
     for _ in range(n):
-        yield Seq(rng).build().rstrip()
+        yield Seq(rng, similar=similar).build().rstrip()
     for _ in range(12 if quick else 300):
-        yield Seq(rng, big=True).build().rstrip()
+        yield Seq(rng, big=True, similar=similar).build().rstrip()
